@@ -23,6 +23,7 @@ use rand::{rngs::StdRng, Rng, SeedableRng};
 use serde_json::{json, Value};
 use std::{
     collections::{BTreeMap, BTreeSet},
+    io,
     pin::Pin,
     sync::{Arc, Mutex},
     task::{Context, Poll, Waker},
@@ -32,22 +33,57 @@ use tarpc::{
     client::{self, RpcError},
     context,
     server::{self, incoming::Incoming, BaseChannel, Channel, Serve},
-    transport::channel::{ChannelError, UnboundedChannel},
+
     ClientMessage, Response, ServerError,
 };
 
 type Req = String;
 type Resp = String;
 
+/// Any transport, with its error mapped to `io::Error`, behind one type (the accept pipeline's type must not depend on it).
+trait DynTransport<Item, SinkItem>: Stream<Item = Result<Item, io::Error>> + Sink<SinkItem, Error = io::Error> {}
+impl<T, Item, SinkItem> DynTransport<Item, SinkItem> for T where T: Stream<Item = Result<Item, io::Error>> + Sink<SinkItem, Error = io::Error> {}
+type DynT<Item, SinkItem> = Pin<Box<dyn DynTransport<Item, SinkItem> + Send>>;
+
+#[pin_project::pin_project]
+struct ErrMap<T>(#[pin] T);
+impl<T, I, E> Stream for ErrMap<T>
+where
+    T: Stream<Item = Result<I, E>>,
+    E: Into<Box<dyn std::error::Error + Send + Sync>>,
+{
+    type Item = Result<I, io::Error>;
+    fn poll_next(self: Pin<&mut Self>, cx: &mut Context<'_>) -> Poll<Option<Self::Item>> {
+        self.project().0.poll_next(cx).map(|o| o.map(|r| r.map_err(io::Error::other)))
+    }
+}
+impl<T, SI> Sink<SI> for ErrMap<T>
+where
+    T: Sink<SI>,
+    T::Error: Into<Box<dyn std::error::Error + Send + Sync>>,
+{
+    type Error = io::Error;
+    fn poll_ready(self: Pin<&mut Self>, cx: &mut Context<'_>) -> Poll<Result<(), io::Error>> {
+        self.project().0.poll_ready(cx).map_err(io::Error::other)
+    }
+    fn start_send(self: Pin<&mut Self>, item: SI) -> Result<(), io::Error> {
+        self.project().0.start_send(item).map_err(io::Error::other)
+    }
+    fn poll_flush(self: Pin<&mut Self>, cx: &mut Context<'_>) -> Poll<Result<(), io::Error>> {
+        self.project().0.poll_flush(cx).map_err(io::Error::other)
+    }
+    fn poll_close(self: Pin<&mut Self>, cx: &mut Context<'_>) -> Poll<Result<(), io::Error>> {
+        self.project().0.poll_close(cx).map_err(io::Error::other)
+    }
+}
+
 /// A transport wrapper that logs the items crossing it, its first poll and its drop.
-#[pin_project::pin_project(PinnedDrop)]
 struct Tap<Item, SinkItem> {
     side: &'static str,
     conn: u64,
     key: u64,
     polled: bool,
-    #[pin]
-    inner: UnboundedChannel<Item, SinkItem>,
+    inner: DynT<Item, SinkItem>,
 }
 
 trait Describe {
@@ -72,52 +108,52 @@ impl Describe for Response<Resp> {
 }
 
 impl<Item: Describe, SinkItem> Stream for Tap<Item, SinkItem> {
-    type Item = Result<Item, ChannelError>;
+    type Item = Result<Item, io::Error>;
     fn poll_next(self: Pin<&mut Self>, cx: &mut Context<'_>) -> Poll<Option<Self::Item>> {
-        let this = self.project();
-        if !*this.polled {
-            *this.polled = true;
-            emit("SysFirstPoll", json!({"side": *this.side, "k": *this.conn}));
+        let this = self.get_mut();
+        if !this.polled {
+            this.polled = true;
+            emit("SysFirstPoll", json!({"side": this.side, "k": this.conn}));
         }
-        let r = this.inner.poll_next(cx);
+        let r = this.inner.as_mut().poll_next(cx);
         match &r {
             Poll::Ready(Some(Ok(it))) => {
                 let mut v = it.describe();
-                v["side"] = json!(*this.side);
-                v["k"] = json!(*this.conn);
+                v["side"] = json!(this.side);
+                v["k"] = json!(this.conn);
                 emit("SysWireIn", v);
             }
-            Poll::Ready(None) => emit("SysWireEof", json!({"side": *this.side, "k": *this.conn})),
+            Poll::Ready(Some(Err(e))) => emit("SysWireErr", json!({"side": this.side, "k": this.conn, "msg": e.to_string()})),
+            Poll::Ready(None) => emit("SysWireEof", json!({"side": this.side, "k": this.conn})),
             _ => {}
         }
         r
     }
 }
 impl<Item, SinkItem: Describe> Sink<SinkItem> for Tap<Item, SinkItem> {
-    type Error = ChannelError;
-    fn poll_ready(self: Pin<&mut Self>, cx: &mut Context<'_>) -> Poll<Result<(), ChannelError>> {
-        self.project().inner.poll_ready(cx)
+    type Error = io::Error;
+    fn poll_ready(self: Pin<&mut Self>, cx: &mut Context<'_>) -> Poll<Result<(), io::Error>> {
+        self.get_mut().inner.as_mut().poll_ready(cx)
     }
-    fn start_send(self: Pin<&mut Self>, item: SinkItem) -> Result<(), ChannelError> {
-        let this = self.project();
+    fn start_send(self: Pin<&mut Self>, item: SinkItem) -> Result<(), io::Error> {
+        let this = self.get_mut();
         let mut v = item.describe();
-        v["side"] = json!(*this.side);
-        v["k"] = json!(*this.conn);
-        let r = this.inner.start_send(item);
+        v["side"] = json!(this.side);
+        v["k"] = json!(this.conn);
+        let r = this.inner.as_mut().start_send(item);
         v["ok"] = json!(r.is_ok());
         emit("SysWireOut", v);
         r
     }
-    fn poll_flush(self: Pin<&mut Self>, cx: &mut Context<'_>) -> Poll<Result<(), ChannelError>> {
-        self.project().inner.poll_flush(cx)
+    fn poll_flush(self: Pin<&mut Self>, cx: &mut Context<'_>) -> Poll<Result<(), io::Error>> {
+        self.get_mut().inner.as_mut().poll_flush(cx)
     }
-    fn poll_close(self: Pin<&mut Self>, cx: &mut Context<'_>) -> Poll<Result<(), ChannelError>> {
-        self.project().inner.poll_close(cx)
+    fn poll_close(self: Pin<&mut Self>, cx: &mut Context<'_>) -> Poll<Result<(), io::Error>> {
+        self.get_mut().inner.as_mut().poll_close(cx)
     }
 }
-#[pin_project::pinned_drop]
-impl<Item, SinkItem> PinnedDrop for Tap<Item, SinkItem> {
-    fn drop(self: Pin<&mut Self>) {
+impl<Item, SinkItem> Drop for Tap<Item, SinkItem> {
+    fn drop(&mut self) {
         emit("SysTransportDrop", json!({"side": self.side, "k": self.conn, "polled": self.polled}));
     }
 }
@@ -174,14 +210,18 @@ fn parse_body(b: &str) -> (u64, u64) {
 impl Serve for SysServe {
     type Req = Req;
     type Resp = Resp;
-    async fn serve(self, _ctx: context::Context, req: Req) -> Result<Resp, ServerError> {
+    async fn serve(self, ctx: context::Context, req: Req) -> Result<Resp, ServerError> {
         let (k, c) = parse_body(&req);
         let inc = {
             let mut g = self.ctl.lock().unwrap();
             g.next_inc += 1;
             g.next_inc
         };
-        emit("SysHandlerStart", json!({"k": k, "c": c, "inc": inc}));
+        emit(
+            "SysHandlerStart",
+            json!({"k": k, "c": c, "inc": inc, "tr": format!("{:x}", u128::from(ctx.trace_context.trace_id)),
+                   "sampled": ctx.trace_context.sampling_decision == tarpc::trace::SamplingDecision::Sampled}),
+        );
         let mut guard = DropLog { c, inc, finished: false };
         GateFut { c, ctl: self.ctl.clone() }.await;
         guard.finished = true;
@@ -200,6 +240,7 @@ struct World {
     abandoned: BTreeSet<u64>,
     call_conn: BTreeMap<u64, u64>,
     cfg: Value,
+    otel: bool,
 }
 
 fn res_of(r: &Result<Resp, RpcError>) -> (String, String) {
@@ -280,6 +321,7 @@ impl World {
             abandoned: BTreeSet::new(),
             call_conn: BTreeMap::new(),
             cfg: cfg.clone(),
+            otel: cfg["sub"] == "otel",
         }
     }
 
@@ -316,8 +358,26 @@ impl World {
                     return;
                 }
                 self.connected.insert(k);
-                let (ct, st) = tarpc::transport::channel::unbounded::<Response<Resp>, ClientMessage<Req>>();
-                // unbounded::<SinkItem, Item>() -> (UnboundedChannel<Item, SinkItem>, UnboundedChannel<SinkItem, Item>)
+                // the medium: the in-memory channel, or the serde transport (JSON / bincode) over an in-process duplex pipe
+                let (ct, st): (DynT<Response<Resp>, ClientMessage<Req>>, DynT<ClientMessage<Req>, Response<Resp>>) =
+                    match self.cfg["transport"].as_str().unwrap_or("mem") {
+                        "json" | "bincode" => {
+                            use tarpc::tokio_serde::formats::{Bincode, Json};
+                            use tarpc::tokio_util::codec::{Framed, LengthDelimitedCodec};
+                            let (a, b) = tokio::io::duplex(1 << 16);
+                            let (fa, fb) = (Framed::new(a, LengthDelimitedCodec::new()), Framed::new(b, LengthDelimitedCodec::new()));
+                            if self.cfg["transport"] == "json" {
+                                (Box::pin(ErrMap(tarpc::serde_transport::new(fa, Json::default()))), Box::pin(ErrMap(tarpc::serde_transport::new(fb, Json::default()))))
+                            } else {
+                                (Box::pin(ErrMap(tarpc::serde_transport::new(fa, Bincode::default()))), Box::pin(ErrMap(tarpc::serde_transport::new(fb, Bincode::default()))))
+                            }
+                        }
+                        _ => {
+                            // unbounded::<SinkItem, Item>() -> (UnboundedChannel<SinkItem, Item>, UnboundedChannel<Item, SinkItem>)
+                            let (ct, st) = tarpc::transport::channel::unbounded::<Response<Resp>, ClientMessage<Req>>();
+                            (Box::pin(ErrMap(ct)), Box::pin(ErrMap(st)))
+                        }
+                    };
                 let stap: STap = Tap { side: "s", conn: k, key, polled: false, inner: st };
                 let ctap: CTap = Tap { side: "c", conn: k, key, polled: false, inner: ct };
                 emit("SysConnect", json!({"k": k, "key": key}));
@@ -343,14 +403,39 @@ impl World {
                 }
                 self.call_conn.insert(c, k);
                 let now = self.clock.now_ms();
-                emit("SysCall", json!({"c": c, "k": k, "dl": now + dl}));
+                // every call has its own trace id (unequal halves) and alternating sampling decision
+                let trace_id = ((0x5151u128 + c as u128) << 64) | (1000 + c as u128);
+                let sampled = c % 2 == 0;
+                emit("SysCall", json!({"c": c, "k": k, "dl": now + dl, "tr": format!("{:x}", trace_id), "sampled": sampled}));
                 let mut ctx = context::current();
                 ctx.deadline = self.clock.std_at((now + dl) as i64);
+                ctx.trace_context = tarpc::trace::Context {
+                    trace_id: tarpc::trace::TraceId::from(trace_id),
+                    span_id: tarpc::trace::SpanId::from(7u64),
+                    sampling_decision: if sampled { tarpc::trace::SamplingDecision::Sampled } else { tarpc::trace::SamplingDecision::Unsampled },
+                };
                 let resolved = self.resolved.clone();
                 let body = format!("k{}c{}", k, c);
                 let _g = self.clock.rt.enter();
+                // under an OpenTelemetry layer the call takes its trace context from the span it is made in
+                let span = if self.otel {
+                    use opentelemetry::trace::TraceContextExt;
+                    use tracing_opentelemetry::OpenTelemetrySpanExt;
+                    let span = tracing::info_span!("caller");
+                    span.set_parent(opentelemetry::Context::new().with_remote_span_context(opentelemetry::trace::SpanContext::new(
+                        opentelemetry::trace::TraceId::from_bytes(trace_id.to_be_bytes()),
+                        opentelemetry::trace::SpanId::from_bytes(7u64.to_be_bytes()),
+                        if sampled { opentelemetry::trace::TraceFlags::SAMPLED } else { opentelemetry::trace::TraceFlags::default() },
+                        true,
+                        opentelemetry::trace::TraceState::default(),
+                    )));
+                    span
+                } else {
+                    tracing::Span::none()
+                };
+                use tracing::Instrument;
                 let h = tokio::spawn(async move {
-                    let r = ch.call(ctx, body).await;
+                    let r = ch.call(ctx, body).instrument(span).await;
                     let (kind, b) = res_of(&r);
                     resolved.lock().unwrap().insert(c);
                     // an ok body is "r<call>.<incarnation>"
@@ -419,7 +504,8 @@ fn run_one(scn: u64, cfg: &Value, steps: &[Value], rng: Option<&mut StdRng>, nra
     exec::log_begin_scenario(scn);
     emit(
         "Reset",
-        json!({"n": cfg["n"].as_u64().unwrap_or(0), "limit": cfg["limit"].as_i64().unwrap_or(-1),
+        json!({"sub": cfg["sub"].as_str().unwrap_or("none"), "transport": cfg["transport"].as_str().unwrap_or("mem"),
+               "n": cfg["n"].as_u64().unwrap_or(0), "limit": cfg["limit"].as_i64().unwrap_or(-1),
                "maxInFlight": cfg["maxInFlight"].as_u64().unwrap_or(1000), "buf": cfg["buf"].as_u64().unwrap_or(100)}),
     );
     let mut done: Vec<Value> = vec![];
@@ -513,12 +599,15 @@ fn run_one(scn: u64, cfg: &Value, steps: &[Value], rng: Option<&mut StdRng>, nra
 }
 
 pub fn run(a: &Args) -> Value {
+    let sub = a.opt_str("sub", "none");
+    crate::wire::install_subscriber(&sub);
     let mut index = vec![];
     let mut scn = 0u64;
     let mut panics = 0;
     if let Some(p) = &a.sched {
-        for Sched { id, cfg, steps, .. } in crate::load_scheds(p) {
+        for Sched { id, mut cfg, steps, .. } in crate::load_scheds(p) {
             scn += 1;
+            cfg["sub"] = json!(sub);
             let (done, pn) = run_one(scn, &cfg, &steps, None, 0);
             if pn.is_some() {
                 panics += 1;
@@ -534,7 +623,8 @@ pub fn run(a: &Args) -> Value {
         let mif = [1u64, 2, 1000][rng.gen_range(0..3)];
         let buf = [1u64, 100][rng.gen_range(0..2)];
         let rb = [1u64, 100][rng.gen_range(0..2)];
-        let cfg = json!({"n": n, "limit": limit, "maxInFlight": mif, "buf": buf, "respBuf": rb, "random": true});
+        let transport = ["mem", "mem", "json", "bincode"][rng.gen_range(0..4)];
+        let cfg = json!({"n": n, "limit": limit, "maxInFlight": mif, "buf": buf, "respBuf": rb, "random": true, "transport": transport, "sub": sub});
         let len = 4 + rng.gen_range(0..14usize);
         let (done, pn) = run_one(scn, &cfg, &[], Some(&mut rng), len);
         if pn.is_some() {
